@@ -218,11 +218,20 @@ func decompressPGLZ(data []byte, rawSize int) ([]byte, error) {
 				if pos+1 >= len(data) {
 					break
 				}
-				b1, b2 := data[pos], data[pos+1]
+				// tag: byte 0 = offset bits 8..11 (high nibble) and length-3 (low nibble),
+				// byte 1 = offset bits 0..7; a length of 18 is extended by a third byte
+				b0, b1 := data[pos], data[pos+1]
 				pos += 2
 
-				offset := int(b1) | (int(b2&0xF0) << 4)
-				length := int(b2&0x0F) + 3
+				offset := (int(b0&0xF0) << 4) | int(b1)
+				length := int(b0&0x0F) + 3
+				if length == 18 {
+					if pos >= len(data) {
+						break
+					}
+					length += int(data[pos])
+					pos++
+				}
 
 				if offset == 0 || offset > len(result) {
 					continue
